@@ -364,6 +364,12 @@ Section Calls.
   Proof.
     unfold exec_method. destruct root; try (intros _; exact I);
       try (intros W; split; [apply R_er_leaked; exact W|reflexivity]).
+    - (* number *)
+      intros W.
+      match goal with |- context [num_method _ ?b m args] =>
+        pose proof (pres_framed_pop st 4 (Some (VNum b)) _ W (pres_num_method (push_frame st 4 (Some (VNum b))) b m args)) as H;
+        destruct (num_method (push_frame st 4 (Some (VNum b))) b m args); cbn [bind]; try exact I; exact H
+      end.
     - (* list *)
       intros W. destruct (hget (push_frame st 4 (Some (VList l))) l) as [[items|?|? ?]|]; try exact I.
       pose proof (pres_framed_pop st 4 (Some (VList l)) _ W (pres_list_method k (push_frame st 4 (Some (VList l))) l items m args)) as H.
